@@ -252,6 +252,15 @@ func detail(sh *gen.C12Sheet, rd *gen.C12Read, v *view, obs []obsRec, extra map[
 	return d
 }
 
+// sheetShown: the sheet as shown in evidence samples (the filler of a long line is abbreviated; replays keep it).
+func sheetShown(sh *gen.C12Sheet) string {
+	if !sh.LongLine {
+		return sh.Text
+	}
+	n := strings.Count(sh.Text, "lorem ipsum ")
+	return strings.Replace(strings.ReplaceAll(sh.Text, "lorem ipsum ", ""), "comment=;", fmt.Sprintf("comment=<'lorem ipsum ' x %d>;", n), 1)
+}
+
 func silence() { log.SetLevel(log.ErrorLevel) }
 
 // sheetFor draws the sheet of a case and loads it with the real reader.
@@ -305,7 +314,7 @@ func runConstruct(c *core.Ctx) {
 			c.Violate(cause, what, detail(sh, rd, &v, obs, nil))
 		}
 		if k == 1 {
-			c.Sample(map[string]any{"sheet": sh.Text, "option_e": sh.CmdErr, "read_class": rd.Class, "read": v.seq, "expected": v.exp})
+			c.Sample(map[string]any{"sheet": sheetShown(sh), "option_e": sh.CmdErr, "read_class": rd.Class, "read": v.seq, "expected": v.exp})
 		}
 	}
 	c.Count("evaluations", evals)
@@ -349,7 +358,7 @@ func runStrand(c *core.Ctx) {
 			c.Violate(feature(cause, v1.far || v2.far), what, detail(sh, rd, &v1, o1, map[string]any{"reverse_complement_read": v2.seq, "observed_reverse_complement": o2}))
 		}
 		if k == 1 {
-			c.Sample(map[string]any{"sheet": sh.Text, "read": v1.seq, "reverse_complement": v2.seq, "read_class": rd.Class})
+			c.Sample(map[string]any{"sheet": sheetShown(sh), "read": v1.seq, "reverse_complement": v2.seq, "read_class": rd.Class})
 		}
 	}
 	c.Count("evaluations", evals)
@@ -513,7 +522,7 @@ func runSafety(c *core.Ctx) {
 			}
 		}
 		if k == 1 {
-			c.Sample(map[string]any{"sheet": sh.Text, "read_class": rd.Class, "read": seq, "records": obs})
+			c.Sample(map[string]any{"sheet": sheetShown(sh), "read_class": rd.Class, "read": seq, "records": obs})
 		}
 	}
 	c.Count("evaluations", evals)
